@@ -338,6 +338,25 @@ func (e *CoreExtension) filterJoin(value interface{}, args ...interface{}) (inte
 	return join(value, delimiter)
 }
 
+// splitAnyOf splits s at every character that occurs in chars; with n > 0 at
+// most n parts are returned, the last one holding the unsplit rest
+func splitAnyOf(s, chars string, n int) []string {
+	parts := []string{}
+	start := 0
+	for i := 0; i < len(s); {
+		if n > 0 && len(parts) == n-1 {
+			break
+		}
+		r, size := utf8.DecodeRuneInString(s[i:])
+		if strings.ContainsRune(chars, r) {
+			parts = append(parts, s[start:i])
+			start = i + size
+		}
+		i += size
+	}
+	return append(parts, s[start:])
+}
+
 func (e *CoreExtension) filterSplit(value interface{}, args ...interface{}) (interface{}, error) {
 	// Default delimiter is whitespace
 	delimiter := " "
@@ -368,17 +387,9 @@ func (e *CoreExtension) filterSplit(value interface{}, args ...interface{}) (int
 
 	// Handle multiple character delimiters (split on any character in the delimiter)
 	if len(delimiter) > 1 {
-		// Convert delimiter string to a regex character class
-		pattern := "[" + regexp.QuoteMeta(delimiter) + "]"
-		re := regexp.MustCompile(pattern)
-
-		if limit > 0 {
-			// Manual split with limit
-			parts := re.Split(s, limit)
-			return parts, nil
-		}
-
-		return re.Split(s, -1), nil
+		// (a character class built from the delimiter would give "-", "^" and
+		// "\\" a meaning of their own, and does not compile for "z-a")
+		return splitAnyOf(s, delimiter, limit), nil
 	}
 
 	// Simple single character delimiter
